@@ -20,7 +20,7 @@ func (e *Env) Enabled(op Op) bool {
 	}
 	pendingEvent := len(e.Rest) > 0
 	switch op.K {
-	case QWrite, QFill:
+	case QWrite, QFill, QWritePart:
 		return !e.InTx && !pendingEvent
 	case QFinish:
 		return !e.InTx && pendingEvent
@@ -114,10 +114,16 @@ func (e *Env) finishEvent() {
 func (e *Env) Apply(op Op) {
 	switch op.K {
 	case QWrite:
-		data := EventBytes(len(e.Events), op.A)
+		// continues an unfinished event if there is one (contents depend on event number and offset only)
+		off := len(e.Cur)
+		data := EventBytes(len(e.Events), off+op.A)[off:]
 		if e.writeChunks(chunks(data, op.B, e.Cfg.File.PageSize)) && !e.Dead {
 			e.finishEvent()
 		}
+	case QWritePart:
+		off := len(e.Cur)
+		data := EventBytes(len(e.Events), off+op.A)[off:]
+		e.writeChunks(chunks(data, op.B, e.Cfg.File.PageSize))
 	case QFinish:
 		rest := e.Rest
 		e.Rest = nil
@@ -127,7 +133,8 @@ func (e *Env) Apply(op Op) {
 	case QFill:
 		for i := 0; i < 5000 && !e.Dead; i++ {
 			full := e.Full
-			data := EventBytes(len(e.Events), op.A)
+			off := len(e.Cur)
+			data := EventBytes(len(e.Events), off+op.A)[off:]
 			if e.writeChunks([][]byte{data}) && !e.Dead {
 				e.finishEvent()
 			}
